@@ -36,11 +36,23 @@ _st = None
 
 
 def _die():
-    if _st is not None and _st.mode == "sigint":
+    if _st is not None and _st.mode in ("sigint", "sigint_after"):
         # Ctrl-C: unlike a kill the interpreter unwinds the stack (finally / with blocks run) before the process ends
         _st.crash_at = -1
         raise KeyboardInterrupt()
     os._exit(137)
+
+
+def _guard(kind, path, n, real):
+    """the event, then the operation. mode 'sigint_after': the Ctrl-C arrives while the operation runs, so the
+    interpreter raises KeyboardInterrupt right after it has completed (still inside the caller's try blocks)"""
+    m = _st.ev(kind, path, n)
+    if m == "sigint_after":
+        real()
+        _die()
+    if m:
+        _die()
+    return real()
 
 
 class _Proxy:
@@ -57,17 +69,16 @@ class _Proxy:
             _die()
         if m == "sigint":
             _die()
+        if m == "sigint_after":
+            self._f.write(b)
+            _die()
         return self._f.write(b)
 
     def flush(self):
-        if _st.ev("flush", self._p):
-            _die()
-        return self._f.flush()
+        return _guard("flush", self._p, None, self._f.flush)
 
     def close(self):
-        if _st.ev("close", self._p):
-            _die()
-        return self._f.close()
+        return _guard("close", self._p, None, self._f.close)
 
     def __enter__(self):
         return self
@@ -82,28 +93,20 @@ class _Proxy:
 
 def _open(path, mode="r", *a, **kw):
     if any(c in mode for c in "wax+"):
-        if _st.ev("open", os.fspath(path)):
-            _die()
-        return _Proxy(_real_open(path, mode, buffering=0), os.fspath(path))
+        return _guard("open", os.fspath(path), None, lambda: _Proxy(_real_open(path, mode, buffering=0), os.fspath(path)))
     return _real_open(path, mode, *a, **kw)
 
 
 def _mkdir(path, *a, **kw):
-    if _st.ev("mkdir", os.fspath(path)):
-        _die()
-    return _real_mkdir(path, *a, **kw)
+    return _guard("mkdir", os.fspath(path), None, lambda: _real_mkdir(path, *a, **kw))
 
 
 def _rename(src, dst, *a, **kw):
-    if _st.ev("rename", os.fspath(dst), os.fspath(src)):
-        _die()
-    return _real_rename(src, dst, *a, **kw)
+    return _guard("rename", os.fspath(dst), os.fspath(src), lambda: _real_rename(src, dst, *a, **kw))
 
 
 def _replace(src, dst, *a, **kw):
-    if _st.ev("rename", os.fspath(dst), os.fspath(src)):
-        _die()
-    return _real_replace(src, dst, *a, **kw)
+    return _guard("rename", os.fspath(dst), os.fspath(src), lambda: _real_replace(src, dst, *a, **kw))
 
 
 _real_sendfile = getattr(os, "sendfile", None)
@@ -124,6 +127,9 @@ def _sendfile(out_fd, in_fd, offset, count, *a, **kw):
     m = _st.ev("write", _fdpath(out_fd), count)
     if m in ("none", "sigint"):
         _die()
+    if m == "sigint_after":
+        _real_sendfile(out_fd, in_fd, offset, count, *a, **kw)
+        _die()
     if m == "half":
         try:
             left = os.fstat(in_fd).st_size - (offset or 0)
@@ -135,21 +141,15 @@ def _sendfile(out_fd, in_fd, offset, count, *a, **kw):
 
 
 def _remove(path, *a, **kw):
-    if _st.ev("remove", os.fspath(path)):
-        _die()
-    return _real_remove(path, *a, **kw)
+    return _guard("remove", os.fspath(path), None, lambda: _real_remove(path, *a, **kw))
 
 
 def _unlink(path, *a, **kw):
-    if _st.ev("remove", os.fspath(path)):
-        _die()
-    return _real_unlink(path, *a, **kw)
+    return _guard("remove", os.fspath(path), None, lambda: _real_unlink(path, *a, **kw))
 
 
 def _link(src, dst, *a, **kw):
-    if _st.ev("rename", os.fspath(dst), os.fspath(src)):
-        _die()
-    return _real_link(src, dst, *a, **kw)
+    return _guard("rename", os.fspath(dst), os.fspath(src), lambda: _real_link(src, dst, *a, **kw))
 
 
 def install(crash_at, mode, logfd):
@@ -216,7 +216,7 @@ def run_forked(fn, crash_at, mode, logpath, timeout=120):
     code = os.waitstatus_to_exitcode(status)
     if code == 137:
         return "crashed", events
-    if mode == "sigint" and code == 0 and done is not None:
+    if mode in ("sigint", "sigint_after") and code == 0 and done is not None:
         return "crashed", events  # the interrupted command ended by itself (click turns KeyboardInterrupt into Abort)
     if code == 0 and done is not None:
         return ("done", done), events
